@@ -25,11 +25,14 @@ def parse_stdout(text):
     return results, snaps
 
 
-def run_impl(lines, fs="shm", fault=None, crash_at=None, clock=None, noatime=False, gran=None, harness=None, timeout=120, persistent=None):
+def run_impl(lines, fs="shm", fault=None, crash_at=None, clock=None, noatime=False, gran=None, harness=None, timeout=120, persistent=None, reuse=None, keep=False):
+    """reuse: directory of a previous run (kept with keep=True) whose root is operated on by a NEW process"""
     base = "/dev/shm" if fs == "shm" else "/tmp"
-    d = tempfile.mkdtemp(prefix="kscn", dir=base)
+    d = reuse or tempfile.mkdtemp(prefix="kscn", dir=base)
     root = os.path.join(d, "root")
-    os.makedirs(root)
+    os.makedirs(root, exist_ok=True)
+    if reuse and os.path.exists(os.path.join(d, "log")):
+        os.unlink(os.path.join(d, "log"))
     logp = os.path.join(d, "log")
     env = dict(C.ENV)
     env.update({"KSHIM_ROOT": root, "KSHIM_LOG": logp, "TMPDIR": os.path.join(root, "systmp"), "LD_PRELOAD": C.KSHIM})
@@ -51,12 +54,15 @@ def run_impl(lines, fs="shm", fault=None, crash_at=None, clock=None, noatime=Fal
         log = open(logp, encoding="utf-8", errors="surrogateescape").read().split("\n") if os.path.exists(logp) else []
         results, snaps = parse_stdout(p.stdout)
         steps = T.parse_log(log, root)
-        return ImplRun(results, snaps, steps, log, p.returncode, p.stdout)
+        r = ImplRun(results, snaps, steps, log, p.returncode, p.stdout)
+        r.dir = d
+        return r
     finally:
-        shutil.rmtree(d, ignore_errors=True)
+        if not keep:
+            shutil.rmtree(d, ignore_errors=True)
 
 
-def augment(lines, impl, gran=None, noatime=False, fault_by_step=None):
+def augment(lines, impl, gran=None, noatime=False, fault_by_step=None, crash_by_step=None):
     """Insert oracle lines (observed environment) before each op."""
     out, step = [], 0
     bystep = {s["step"]: s for s in impl.steps}
@@ -78,6 +84,8 @@ def augment(lines, impl, gran=None, noatime=False, fault_by_step=None):
                 toks.append("atime=noatime")
             if fault_by_step and step in fault_by_step:
                 toks.append("fault=%d:%s" % fault_by_step[step])
+            if crash_by_step and step in crash_by_step:
+                toks.append("crash=%d" % crash_by_step[step])
             out.append("oracle " + " ".join(toks))
         out.append(l)
     return out
